@@ -75,7 +75,9 @@ func genC01(r *h.Rng, tier string, idx int) *h.Plan {
 			if nlocs > 1 && r.P(3, 4) {
 				ps = append(ps, "L1")
 			}
-			if nlocs > 2 && r.P(1, 3) && len(ps) == 0 {
+			// (L0 -> [L1, L2] with L1 -> [L2] makes L2 reachable along two paths:
+			// judged as long as L2 itself contributes no matching rule)
+			if nlocs > 2 && r.P(1, 3) && (len(ps) == 0 || r.P(1, 2)) {
 				ps = append(ps, "L2")
 			}
 		case "L1":
